@@ -8,6 +8,7 @@ Three scenario families over the suite / credential swarm:
 (b) credential mismatch between the two configurations (wrong PSK, wrong RSA key, PSK vs RSA, identity type or data);
 (c) plain runs of every suite, in which the wiretap recomputes both AUTH payloads from the octets that crossed the wire."""
 import copy
+import ipaddress
 import random
 import struct
 
@@ -175,12 +176,29 @@ def generate(seed, tier):
     r = random.Random(f'C02gen:{seed}')
     family = r.choice(['mitm', 'mitm', 'mitm', 'cred', 'plain'])
     byzpeer = r.random() < 0.07
+    keyless = not byzpeer and r.random() < 0.06
     o = {'conf': {'profile': 'slow', 'entries': 1, 'slow_dh': r.random() < 0.1}, 'faults': [], 'duration': 9, 'packets': 1, 'both_initiate': False, 'phase': False}
     if byzpeer:
         family = 'byzpeer'
         o['conf'].update(auth='psk', single=r.random() < 0.5)
     sc = workload.pair_scenario(seed, PROP, o)
     sc['meta']['family_kind'] = family
+    if keyless and sc['meta']['family'] == 4:
+        # a peer with no credential at all: it completes IKE_SA_INIT with the daemon (so it has the SK_* keys), never sends IKE_AUTH,
+        # answers whatever the daemon asks of the half-open IKE_SA and then asks for a CHILD_SA: never established, nothing installed
+        q_addr = '10.0.0.3'
+        cb_ = sc['nodes']['B']['conf']
+        base = copy.deepcopy(cb_['to-a'])
+        base['peer_addr'] = q_addr
+        base['dpd'] = r.choice([2, 3, 5])
+        base['protect'] = [{'index': 900, 'mode': 'transport', 'ip_proto': 'tcp', 'peer_port': 7}]
+        cb_['to-q'] = base
+        sc['keyless'] = {'addr': q_addr, 'seed': r.randrange(2 ** 31), 'then': r.choice(['wait_for_probe', 'wait_for_probe', 'ask_at_once', 'informational_at_once'])}
+        sc['meta']['family_kind'] = family = 'keyless'
+        sc['ops'].append({'t': 1.2, 'op': 'call', 'name': 'keyless_start'})
+        sc['ops'].sort(key=lambda x: x['t'])
+        sc['until'] = sc['quiet_from'] = 16.0
+        return sc
     if byzpeer:
         # the configured peer itself (it holds the PSK) answers IKE_SA_INIT with a proposal that lists a never-offered ENCR transform in
         # front of an offered one and keys the IKE_SA with it: "whenever both sides are established they agree on offered and chosen proposals"
@@ -254,6 +272,88 @@ def run(scenario):
         tap = ctx['tap'] = Wiretap(w, check_reencode=False)
         ip = ctx['ip'] = Interposer(w, tap)
         ctx['rewritten'] = []          # (receiver, original, new, changed_meaning)
+
+        kl = scenario.get('keyless')
+        if kl:
+            from checks.c18 import build_init
+
+            class Keyless:
+                """Initiator without credentials (reference key schedule, sim/refike.py)."""
+                def __init__(self):
+                    self.r = random.Random(f'keyless:{kl["seed"]}')
+                    self.conn = next(c for c in configs.read_conf(scenario['nodes']['B']['conf']).values() if str(c['peer_addr']) == kl['addr'])
+                    self.spi_i = bytes(self.r.getrandbits(8) for _ in range(8))
+                    self.ni = bytes(self.r.getrandbits(8) for _ in range(32))
+                    self.x = self.r.getrandbits(200) + 2
+                    self.keys = self.suite = self.spi_r = None
+                    self.next_id = 1
+                    self.asked = False
+                    self.log = []
+                    w.externals[kl['addr']] = self
+
+                def start(self, w_, op):
+                    w.net.inject(build_init(self.conn, self.spi_i, self.ni, self.x), kl['addr'], str(self.conn['my_addr']), 0.005, 'keyless')
+
+                def _iv(self):
+                    return bytes(self.r.getrandbits(8) for _ in range(16))
+
+                def _send(self, exch, mid, pls, response=False):
+                    d = R.sk_seal({'spi_i': self.spi_i, 'spi_r': self.spi_r, 'exch': exch, 'I': True, 'R': response, 'id': mid}, pls, self.suite,
+                                  self.keys['ai'], self.keys['ei'], self._iv())
+                    w.net.inject(d, kl['addr'], str(self.conn['my_addr']), 0.005, 'keyless')
+
+                def ask(self):
+                    if self.asked or self.keys is None:
+                        return
+                    self.asked = True
+                    e = self.conn['protect'][0]
+                    q, b = ipaddress.ip_address(kl['addr']).packed, self.conn['my_addr'].packed
+                    trs = [{'type': 1, 'id': e['encr'][0][0], 'keylen': e['encr'][0][1]}, {'type': 3, 'id': e['integ'][0]}, {'type': 5, 'id': 0}]
+                    ts = lambda t, a, lo, hi: {'type': t, 'selectors': [{'ts_type': 7, 'proto': 6, 'sport': lo, 'eport': hi, 'saddr': a, 'eaddr': a}]}
+                    pls = [{'type': R.P_NOTIFY, 'proto': 0, 'ntype': R.N_USE_TRANSPORT_MODE, 'spi': b'', 'data': b''},
+                           {'type': R.P_SA, 'proposals': [{'num': 1, 'proto': 3, 'spi': bytes(self.r.getrandbits(8) for _ in range(4)), 'transforms': trs}]},
+                           {'type': R.P_NONCE, 'data': bytes(self.r.getrandbits(8) for _ in range(32))},
+                           ts(R.P_TSi, q, 7, 7), ts(R.P_TSr, b, 0, 65535)]
+                    self.log.append('asked for a CHILD_SA')
+                    self._send(R.CREATE_CHILD_SA, self.next_id, pls)
+                    self.next_id += 1
+
+                def on_datagram(self, data, src, dst):
+                    try:
+                        h = R.dec_header(bytes(data))
+                    except R.DecodeError:
+                        return
+                    if h['exch'] == 34 and h['R'] and self.keys is None:
+                        try:
+                            pls = [R.dec_payload(p) for p in R.dec_chain(bytes(data)[28:], h['next'])]
+                            sa = next(p for p in pls if p['type'] == R.P_SA)
+                            ke = next(p for p in pls if p['type'] == R.P_KE)
+                            nr = next(p for p in pls if p['type'] == R.P_NONCE)['data']
+                            self.suite = R.Suite.from_proposal(sa['proposals'][0])
+                            self.spi_r = h['spi_r']
+                            self.keys = R.ike_keys(self.suite, self.ni, nr, self.spi_i, self.spi_r, R.dh_shared(self.suite.dh, self.x, ke['data']))
+                        except Exception:
+                            return
+                        self.log.append('IKE_SA_INIT done')
+                        if kl['then'] == 'ask_at_once':
+                            w.after(0.3, self.ask, 'keyless.ask')
+                        elif kl['then'] == 'informational_at_once':
+                            self._send(R.INFORMATIONAL, self.next_id, [])
+                            self.next_id += 1
+                            w.after(0.5, self.ask, 'keyless.ask')
+                        return
+                    if self.keys is None or h['R'] or (h['spi_i'], h['spi_r']) != (self.spi_i, self.spi_r):
+                        return
+                    try:
+                        R.sk_open(bytes(data), self.suite, self.keys['ar'], self.keys['er'])
+                    except R.DecodeError:
+                        return
+                    # a request of the daemon on the half-open IKE_SA (a liveness probe ...): answer it, empty, and ask for a CHILD_SA
+                    self.log.append(f'answered request {h["exch"]} id {h["id"]}')
+                    self._send(h['exch'], h['id'], [], response=True)
+                    w.after(0.3, self.ask, 'keyless.ask')
+            ctx['keyless'] = Keyless()
+            ctx['handlers'] = dict(ctx.get('handlers', {}), keyless_start=ctx['keyless'].start)
 
         class Deliveries:
             def before_delivery(self, node, data, src, dst, meta):
@@ -399,6 +499,23 @@ def run(scenario):
                              f'the IKE_SA with - an ENCR transform the initiator never offered, listed in front of an offered one')
             if peer.counts.get('byz_foreign_first') and not est:
                 reach['failed_as_required'] = reach.get('failed_as_required', 0) + 1
+            return
+        if scenario.get('keyless'):
+            kl_, peer_ = scenario['keyless'], ctx['keyless']
+            reach['keyless.' + kl_['then']] = 1
+            reach['keyless.init_done'] = int(peer_.keys is not None)
+            reach['keyless.asked'] = int(peer_.asked)
+            node = w.nodes['B']
+            bad = [sa for sa in node.ike_sas() if str(sa.peer_addr) == kl_['addr'] and int(sa.state) >= 10]
+            everest = [e for e in est if e['spi_i'] == peer_.spi_i]
+            if bad or everest:
+                return V('established_without_auth', {'then': kl_['then']},
+                         f'B holds / held an established IKE_SA with {kl_["addr"]}, a peer that never sent an AUTH payload (it {"; ".join(peer_.log)})')
+            from sim.kernel import _addr_raw as _ar
+            inst = [k for k in newsa_index(node) if k[0] == _ar(kl_['addr'])]
+            if inst:
+                return V('ipsec_sa_installed_without_auth', {'then': kl_['then']},
+                         f'B installed {len(inst)} IPsec SA(s) towards {kl_["addr"]}, a peer that never sent an AUTH payload (it {"; ".join(peer_.log)})')
             return
         idx = {n: newsa_index(node) for n, node in w.nodes.items()}
         sent = {n: [e['data'] for e in ctx['wire'].by_sender.get(n, [])] for n in w.nodes}
